@@ -7,7 +7,7 @@ from harness.carrier import carrier_yaml
 
 NAMES = {
     'g1': 'glob1', 'g2': 'glob2', 'g3': 'glob3', 'f1': '_fil1', 'f2': '_fil2', 'l1': '.loc1', 'l2': '.loc2',
-    'kg1': 'KGLOB1', 'kg2': 'KGLOB2', 'kf1': '_KFIL1', 'pd1': 'pdat1', 'pc1': 'PCON1',
+    'kg1': 'KGLOB1', 'kg2': 'KGLOB2', 'kf1': '_KFIL1', 'pd1': 'pdat1', 'pc1': 'PCON1', 'rg': 'sp',
     'S1': 'SYM1', 'S2': 'SYM2', 'S3': 'SYM3',
     'z1': 'zone1', 'z2': 'zone2', 'z3': 'zone3', 'GLOBAL': 'GLOBAL',
 }
